@@ -454,7 +454,31 @@ func v0GenDerivation(r *Rng, allowEmptyPath bool) (uint32, []uint32, []byte) {
 
 func v0GenUnknown(r *Rng) *pset.Unknown {
 	ty := byte(r.Pick(9, 10, 0x0f, 0x7f, 0xfc, 0xfc, 0xfd, 0xff))
-	return &pset.Unknown{Key: append([]byte{ty}, r.Bytes(r.Pick(0, 0, 1, 5, 33, 0xfc))...), Value: r.Bytes(r.Pick(0, 1, 4, 40, 0xfd))}
+	u := &pset.Unknown{Key: append([]byte{ty}, r.Bytes(r.Pick(0, 0, 1, 5, 33, 0xfc))...), Value: r.Bytes(r.Pick(0, 1, 4, 40, 0xfd))}
+	switch k := r.Intn(100); {
+	case k < 6: // values around MaxPsbtKeyLength: a value is capped by MaxPsbtValueLength, not by the key cap
+		u.Value = r.Bytes(r.Pick(9999, 10000, 10001, 10002, 0xffff, 0x10000))
+	case k < 9: // keys at the key cap (type byte included)
+		u.Key = append([]byte{ty}, r.Bytes(r.Pick(9998, 9999))...)
+	}
+	return u
+}
+
+// v0GenBigOutputs makes the transaction carry at least three confidential outputs with
+// full-size proofs, so that its serialization is well above 10000 bytes.
+func v0GenBigOutputs(r *Rng, tx *transaction.Transaction) {
+	n := 3 + r.Intn(2)
+	for len(tx.Outputs) < n {
+		tx.Outputs = append(tx.Outputs, v0GenOutput(r, r.Bytes(r.Pick(22, 23, 34))))
+	}
+	for i := 0; i < n; i++ {
+		o := tx.Outputs[i]
+		o.Asset = append([]byte{byte(r.Pick(10, 11))}, r.Bytes(32)...)
+		o.Value = append([]byte{byte(r.Pick(8, 9))}, r.Bytes(32)...)
+		o.Nonce = append([]byte{byte(r.Pick(2, 3))}, r.Bytes(32)...)
+		o.RangeProof = r.Bytes(r.Pick(4174, 4174, 2893, 5134))
+		o.SurjectionProof = r.Bytes(r.Pick(67, 131, 195))
+	}
 }
 
 // v0GenAPI builds a packet with the creator, updater, signer and finalizer only (plus
@@ -541,13 +565,25 @@ func v0GenAPI(r *Rng) *pset.Pset {
 			if len(prev.Inputs) > 6 {
 				prev.Inputs = prev.Inputs[:6]
 			}
+			if r.Chance(30) {
+				v0GenBigOutputs(r, prev)
+			}
 			o := v0GenOutput(r, spk)
+			if r.Chance(50) { // keep the spent output's proofs when it is confidential
+				o.RangeProof, o.SurjectionProof = prev.Outputs[index].RangeProof, prev.Outputs[index].SurjectionProof
+				if len(o.Nonce) <= 1 {
+					o.RangeProof, o.SurjectionProof = nil, nil
+				}
+			}
 			prev.Outputs[index] = o
 			h := prev.TxHash()
 			hash = h.CloneBytes()
 			pl.nwu = prev
 		} else {
 			pl.wu = v0GenOutput(r, spk)
+			if len(pl.wu.Nonce) > 1 && r.Chance(10) {
+				pl.wu.RangeProof = r.Bytes(r.Pick(9900, 10001, 12000))
+			}
 		}
 		ins = append(ins, transaction.NewTxInput(hash, index))
 		plans = append(plans, pl)
@@ -654,6 +690,9 @@ func v0GenDirect(r *Rng) *pset.Pset {
 		if !r.Chance(pr) {
 			return nil
 		}
+		if r.Chance(4) {
+			return r.Bytes(r.Pick(9999, 10000, 10001))
+		}
 		return v0NonNil(r.Bytes(r.Pick(0, 1, 22, 34, 71, 0xfc, 0xfd, 300)))
 	}
 	genSig := func() *psbt.PartialSig {
@@ -703,11 +742,14 @@ func v0GenDirect(r *Rng) *pset.Pset {
 		switch k := r.Intn(100); {
 		case k < 25:
 			in.NonWitnessUtxo = genTx(r, !wild)
+			if r.Chance(25) {
+				v0GenBigOutputs(r, in.NonWitnessUtxo)
+			}
 			if len(in.NonWitnessUtxo.Inputs) > 6 {
 				in.NonWitnessUtxo.Inputs = in.NonWitnessUtxo.Inputs[:2]
 			}
 			if len(in.NonWitnessUtxo.Outputs) > 6 {
-				in.NonWitnessUtxo.Outputs = in.NonWitnessUtxo.Outputs[:2]
+				in.NonWitnessUtxo.Outputs = in.NonWitnessUtxo.Outputs[:4]
 			}
 		case k < 75:
 			in.WitnessUtxo = v0GenOutput(r, r.Bytes(r.Pick(0, 1, 1, 22, 23, 34, 0xfc, 0xfd)))
